@@ -6,8 +6,6 @@
 use crate::engine::*;
 use crate::mixed::*;
 #[cfg(feature = "explanations")]
-use crate::langs::*;
-#[cfg(feature = "explanations")]
 use crate::tm::*;
 
 #[cfg(feature = "explanations")]
@@ -697,7 +695,7 @@ mod imp {
         let _ = terms_all;
         // every pair of inserted terms the e-graph reports equal is explained
         let mut stats = ProofStats::default();
-        let mut explained = 0;
+        let mut explained: u64 = 0;
         let n = st.handles.len();
         let mut uses_sym3 = false;
         for i in 0..n {
@@ -722,6 +720,119 @@ mod imp {
                 // the printed form must be producible
                 let _ = proof.to_string(&eg);
             }
+        }
+        // equal terms that were never inserted: a term with an occurrence of one union operand replaced by the other
+        let unions: Vec<(usize, usize)> = c.ops.iter().filter_map(|o| if let MOp::Union(a, b) = o { Some((*a, *b)) } else { None }).collect();
+        let mut probes = 0;
+        'outer: for (ti, t) in st.terms.iter().enumerate() {
+            for (a, b) in &unions {
+                if *a >= st.terms.len() || *b >= st.terms.len() || probes >= 4 {
+                    continue;
+                }
+                for (from, to) in [(&st.terms[*a], &st.terms[*b]), (&st.terms[*b], &st.terms[*a])] {
+                    let Some(v) = crate::props::c09::replace_first(t, from, to) else { continue };
+                    if &v == t || st.terms.contains(&v) {
+                        continue;
+                    }
+                    let tv = parse_tm::<L>(&v, nm);
+                    let Some(hv) = lookup_rec_expr(&tv, &eg) else { continue };
+                    if !eg.eq(&hv, &st.handles[ti]) {
+                        continue;
+                    }
+                    probes += 1;
+                    let ta = parse_tm::<L>(t, nm);
+                    // both orders: the never-inserted term as second and as first argument
+                    for flip in [false, true] {
+                        let (x, y) = if flip { (tv.clone(), ta.clone()) } else { (ta.clone(), tv.clone()) };
+                        let proof = eg.explain_equivalence(x.clone(), y.clone());
+                        let eq = proof.equ();
+                        let pl = render(&eg, &eq.l, &sig)?;
+                        let pr = render(&eg, &eq.r, &sig)?;
+                        let (ql, qr) = (to_st(&x, &sig)?, to_st(&y, &sig)?);
+                        if !instance_of(&pl, &pr, &ql, &qr) {
+                            return Err(format!("explanation of {} = {} concludes {} = {}", ql.show(), qr.show(), pl.show(), pr.show()));
+                        }
+                        check_proof(&eg, &sig, &proof, &asserted, &rules, &mut stats).map_err(|e| format!("explanation of {} = {} (second term never inserted): {}", ql.show(), qr.show(), e))?;
+                        explained += 1;
+                    }
+                    if probes >= 4 {
+                        break 'outer;
+                    }
+                }
+            }
+        }
+        if probes > 0 {
+            obs.label("explained-against-never-inserted-term");
+        }
+        // permuted copies the e-graph reports equal (class symmetries), whether or not the copy was ever inserted
+        let mut sym_probes = 0;
+        for (ti, t) in st.terms.iter().enumerate() {
+            let fv: Vec<Name> = t.fv().into_iter().collect();
+            if fv.len() < 2 || fv.len() > 6 || sym_probes >= 6 {
+                continue;
+            }
+            let mut cands: Vec<Vec<Name>> = Vec::new();
+            if fv.len() <= 4 {
+                cands = crate::egx::perms(&fv);
+            } else {
+                // transpositions, 3-cycles and products of two disjoint 3-cycles
+                let k = fv.len();
+                for a in 0..k {
+                    for b in a + 1..k {
+                        let mut p = fv.clone();
+                        p.swap(a, b);
+                        cands.push(p);
+                        for c2 in 0..k {
+                            if c2 != a && c2 != b {
+                                let mut p = fv.clone();
+                                p[a] = fv[b];
+                                p[b] = fv[c2];
+                                p[c2] = fv[a];
+                                cands.push(p.clone());
+                                // second 3-cycle on the remaining points
+                                let rest: Vec<usize> = (0..k).filter(|i| *i != a && *i != b && *i != c2).collect();
+                                if rest.len() >= 3 {
+                                    let mut q = p.clone();
+                                    q[rest[0]] = fv[rest[1]];
+                                    q[rest[1]] = fv[rest[2]];
+                                    q[rest[2]] = fv[rest[0]];
+                                    cands.push(q);
+                                }
+                            }
+                        }
+                    }
+                }
+            }
+            for p in cands {
+                if p == fv || sym_probes >= 6 {
+                    continue;
+                }
+                let m: BTreeMap<Name, Name> = fv.iter().copied().zip(p.iter().copied()).collect();
+                let v = crate::hist::unfreshen(&t.rename_free(&m));
+                if st.terms.contains(&v) {
+                    continue;
+                }
+                let tv = parse_tm::<L>(&v, nm);
+                let Some(hv) = lookup_rec_expr(&tv, &eg) else { continue };
+                if !eg.eq(&hv, &st.handles[ti]) {
+                    continue;
+                }
+                sym_probes += 1;
+                let ta = parse_tm::<L>(t, nm);
+                let proof = eg.explain_equivalence(ta.clone(), tv.clone());
+                let eq = proof.equ();
+                let pl = render(&eg, &eq.l, &sig)?;
+                let pr = render(&eg, &eq.r, &sig)?;
+                let (ql, qr) = (to_st(&ta, &sig)?, to_st(&tv, &sig)?);
+                if !instance_of(&pl, &pr, &ql, &qr) {
+                    return Err(format!("explanation of {} = {} concludes {} = {}", ql.show(), qr.show(), pl.show(), pr.show()));
+                }
+                check_proof(&eg, &sig, &proof, &asserted, &rules, &mut stats).map_err(|e| format!("explanation of {} = {} (permuted copy, never inserted): {}", ql.show(), qr.show(), e))?;
+                explained += 1;
+            }
+        }
+        if sym_probes > 0 {
+            obs.label("explained-permuted-copy");
         }
         // classification
         for (h, t) in st.handles.iter().zip(st.terms.iter()) {
@@ -779,7 +890,7 @@ pub fn property(tier: Tier) -> Property {
     ] {
         let mut cfg = MixedCfg::for_lang(lang);
         cfg.max_ops = tier.pick(7, 10);
-        cfg.addsyn_p = 16; // always add_syn_expr
+        cfg.addsyn_p = 16; // always add_syn_expr: union_justified on handles of plain add_expr loses the syntactic identity of the term by design
         cfg.allow_extraction_subst = false;
         cfg.no_subst_rules = true;
         cfg.rewrite_p = 2;
@@ -790,6 +901,30 @@ pub fn property(tier: Tier) -> Property {
             panic_is_violation: true,
             render: |c: &Mixed| c.render(),
             rule: "histories of add_syn_expr and union_justified with distinct justifications (recipes: permuted copies incl. 3- and 4-cycles, renamed copies = redundancy, contexts = self-reference, binders) and rewrite iterations with rules without substitution right sides; every pair of inserted terms the e-graph reports equal is explained and the proof DAG is re-checked node by node on terms; non-trivial = the proofs contain a congruence step and an explicit leaf; distinct by rendered history",
+            case_timeout_s: tier.pick(30, 120),
+            exhaustive: false,
+        }));
+    }
+    {
+        // classes with up to 6 slots (products of cycles, partially redundant orbits); no ground oracle is involved here
+        let mut cfg = MixedCfg::for_lang(crate::langs::LangId::Core);
+        cfg.max_ops = tier.pick(6, 8);
+        cfg.addsyn_p = 16;
+        cfg.allow_extraction_subst = false;
+        cfg.no_subst_rules = true;
+        cfg.rewrite_p = 1;
+        cfg.hist.gen.alphabet = 6;
+        cfg.hist.gen.max_fv = 6;
+        cfg.hist.gen.max_depth = 2;
+        cfg.hist.gen.ops = Some(vec!["v", "f2", "g3", "c0", "p", "w", "lam"]);
+        cfg.hist.weights = [1, 1, 4, 3, 2, 1, 2, 1, 6];
+        stages.push(Box::new(Stage {
+            name: "explain-core-wide",
+            source: random(move || mixed_strategy(cfg.clone()), tier.pick(1500, 30_000)),
+            run,
+            panic_is_violation: true,
+            render: |c: &Mixed| c.render(),
+            rule: "as explain-core, but over a 6-name alphabet with terms of up to 6 free slots (p over two multi-slot leaves), mostly permuted and renamed copies: symmetries that are products of cycles, orbits that become redundant only in part",
             case_timeout_s: tier.pick(30, 120),
             exhaustive: false,
         }));
